@@ -11,6 +11,7 @@ import (
 type Ctx struct {
 	sites         map[*FuncUnit][]callSite
 	pedigreeDepth int
+	sigDepth      int
 	L             *Loaded
 	m             *Model
 	e             *Engine
